@@ -15,6 +15,9 @@ from . import unit as U
 ROOT = os.path.dirname(os.path.dirname(os.path.abspath(__file__)))
 CACHE = os.path.join(ROOT, ".cache", "loom-target")
 GROUPS = {
+    "lqueue": {"file": "nexosim/src/channel/queue.rs", "harness": "loom/queue.rs", "filter": "verif_loom", "props": "C12",
+               "tests": ["verif_loom_queue_capacity_2", "verif_loom_queue_capacity_3"], "bounds": (2, 3),
+               "bound": "loom model checking of the real mailbox Queue: two producer threads pushing two messages each and the consumer popping concurrently, capacities 2 and 3, preemption bound %s; every interleaving within the bound"},
     "lcrw": {"file": "nexosim/src/util/cached_rw_lock.rs", "harness": "loom/cached_rw_lock.rs", "filter": "verif_loom", "props": "C14",
              "tests": ["verif_loom_clones_see_completed_writes", "verif_loom_scratchpad_sees_completed_writes"]},
 }
@@ -33,7 +36,7 @@ def run(tier, build_dir, name):
         src = open(path).read()
         open(path, "w").write(src + open(os.path.join(ROOT, g["harness"])).read())
         out["items"] = {"file:" + g["file"]: {"src": g["file"], "repo_lines": [1, src.count("\n") + 1]}}
-        bound = "4" if tier == "thorough" else "3"
+        bound = str(g.get("bounds", (3, 4))[1 if tier == "thorough" else 0])
         env = dict(os.environ, CARGO_NET_OFFLINE="true", CARGO_TARGET_DIR=CACHE, RUSTFLAGS="--cfg nexosim_loom",
                    VERIF_LOOM_PREEMPTION_BOUND=bound, LOOM_MAX_PREEMPTIONS=bound)
         cmd = ["cargo", "test", "--offline", "-p", "nexosim", "--lib", "--release", g["filter"], "--", "--test-threads=1"]
@@ -53,7 +56,7 @@ def run(tier, build_dir, name):
             return out
         out["ok"] = True
         out["scenarios"] = len(results)
-        out["bound"] = "loom model checking of the real CachedRwLock: three threads (a writer, a refreshing clone, the main thread writing through a third clone), one or two operations each, preemption bound %s; every interleaving within the bound" % bound
+        out["bound"] = g.get("bound", "loom model checking of the real CachedRwLock: three threads (a writer, a refreshing clone, the main thread writing through a third clone), one or two operations each, preemption bound %s; every interleaving within the bound") % bound
         out["samples"] = sorted(results)
         for t, r in sorted(results.items()):
             if r == "FAILED":
@@ -69,4 +72,5 @@ def run(tier, build_dir, name):
 if __name__ == "__main__":
     import json
     import sys
-    print(json.dumps(run(sys.argv[1] if len(sys.argv) > 1 else "quick", "/tmp", "lcrw"), indent=1)[:3000])
+    for gname in (sys.argv[2:] or list(GROUPS)):
+        print(json.dumps(run(sys.argv[1] if len(sys.argv) > 1 else "quick", "/tmp", gname), indent=1)[:3000])
